@@ -9,9 +9,15 @@
 package main
 
 import (
+	"bytes"
 	"fmt"
 	"os"
 	"strings"
+
+	"github.com/google/wuffs/lib/rac"
+	"github.com/google/wuffs/lib/raczlib"
+	"github.com/google/wuffs/lib/raczstd"
+	"wvh/hlib"
 )
 
 // resource lengths around raczlib's refine limit (32768); raczstd's limit
@@ -240,5 +246,258 @@ func (h *H) realDictRuns(n int) {
 	h.r.Extra("dict_cases_where_a_resource_longer_than_32KiB_won_zstd", wonLong["zstd"])
 	if wonLong["zlib"] == 0 {
 		h.r.Note("generator weakness: no raczlib chunk was compressed against a resource longer than 32 KiB in this run")
+	}
+}
+
+// ---------------------------------------------------------------- racdict, function by function
+
+// genBytes is the byte generator shared with the Lean driver (`genBytes` in Driver/C13.lean).
+func genBytes(seed uint64, n int) []byte {
+	x := seed
+	out := make([]byte, n)
+	for i := range out {
+		x = x*6364136223846793005 + 1442695040888963407
+		out[i] = byte(x >> 56)
+	}
+	return out
+}
+
+func hashBytes(b []byte) uint64 {
+	h := uint64(14695981039346656037)
+	for _, c := range b {
+		h = h*16777619 + uint64(c)
+	}
+	return h
+}
+
+func dictErrWord(err error) string {
+	if err == errHCut1 {
+		return "codec-error"
+	}
+	if w := raczlib.VerifDictErrWord(err); w != "" {
+		return w
+	}
+	return "other:" + strings.ReplaceAll(err.Error(), " ", "_")
+}
+
+func wrapWith(codec string, raw []byte) ([]byte, error) {
+	if codec == "z" {
+		return (&raczlib.CodecWriter{}).WrapResource(raw)
+	}
+	return (&raczstd.CodecWriter{}).WrapResource(raw)
+}
+
+func refineWith(codec string, raw []byte) []byte {
+	if codec == "z" {
+		return raczlib.VerifRefine(raw)
+	}
+	return raczstd.VerifRefine(raw)
+}
+
+// loadSec runs a fresh racdict.Loader on a file that holds sec at a random offset.
+func (h *H) loadSec(sec []byte, ter bool, ttag uint8) ([]byte, error) {
+	pre := h.rng.Bytes(h.rng.Intn(7))
+	file := append(append(append([]byte(nil), pre...), sec...), h.rng.Bytes(h.rng.Intn(7))...)
+	chunk := rac.Chunk{TTag: ttag}
+	chunk.CSecondary = rac.Range{int64(len(pre)), int64(len(pre) + len(sec))}
+	if ter {
+		chunk.CTertiary = rac.Range{0, 1}
+	}
+	d, err := raczlib.VerifLoaderLoad(raczlib.VerifNewLoader(), bytes.NewReader(file), chunk)
+	return append([]byte(nil), d...), err
+}
+
+// dictWrapOne: WrapResource on raw (model: Dict.wrapResource with the codec's refine), and the
+// implementation-side agreement of the two ends: what the Loader extracts from the wrapped bytes
+// (followed by unrelated bytes) is what refine hands to the compressor.
+func (h *H) dictWrapOne(codec string, line string, raw []byte, hashed bool) {
+	wrapped, err := wrapWith(codec, raw)
+	if err != nil {
+		h.r.Op(line, "err "+dictErrWord(err))
+		return
+	}
+	if hashed {
+		h.r.Op(line, fmt.Sprintf("ok %d %d", len(wrapped), hashBytes(wrapped)))
+	} else {
+		h.r.Op(line, "ok "+hlib.Hex(wrapped))
+	}
+	sec := append(append([]byte(nil), wrapped...), h.rng.Bytes(h.rng.Intn(5))...)
+	got, lerr := h.loadSec(sec, false, 0xFF)
+	if lerr != nil || !bytes.Equal(got, refineWith(codec, raw)) {
+		h.r.Fail("dict:load-wrap-mismatch:"+codec, fmt.Sprintf("racdict.Loader.Load(WrapResource(raw)) is not refine(raw) (err=%v, %d vs %d bytes)", lerr, len(got), len(refineWith(codec, raw))), line)
+	}
+	h.r.Count("dictwrap:" + codec)
+}
+
+func fakeCompress(base int, buf *[]byte) func(p, q, dict []byte) ([]byte, error) {
+	return func(p, q, dict []byte) ([]byte, error) {
+		n, m := 0, byte(0)
+		switch len(dict) {
+		case 0:
+			n, m = base, 0xAA
+		case 1:
+			n, m = int(dict[0]), dict[0]
+		default:
+			n, m = int(dict[0])+256*int(dict[1]), dict[len(dict)-1]
+			if n == 0xFFFF {
+				return nil, errHCut1
+			}
+		}
+		// one shared buffer: every call clobbers what the previous call returned
+		b := (*buf)[:0]
+		for i := 0; i < n; i++ {
+			b = append(b, m)
+		}
+		*buf = b
+		return b, nil
+	}
+}
+
+func (h *H) dictOps(n int) {
+	r := h.r
+	// WrapResource / refine at the codecs' limits
+	for _, codec := range []string{"z", "s"} {
+		for _, l := range []int{0, 1, 2, 100, 32767, 32768, 32769, 40000, 65536, 100000} {
+			seed := h.rng.Uint64()
+			h.dictWrapOne(codec, fmt.Sprintf("dictwrap %s %d %d", codec, seed, l), genBytes(seed, l), true)
+		}
+		for i := 0; i < n/10; i++ {
+			l := h.rng.Range(32768-3, 32768+3)
+			if h.rng.Bool() {
+				l = h.rng.Intn(70000)
+			}
+			seed := h.rng.Uint64()
+			h.dictWrapOne(codec, fmt.Sprintf("dictwrap %s %d %d", codec, seed, l), genBytes(seed, l), true)
+		}
+		for i := 0; i < n/4; i++ {
+			raw := h.rng.Bytes(h.rng.Intn(20))
+			h.dictWrapOne(codec, "dictwraph "+codec+" "+hlib.Hex(raw), raw, false)
+		}
+	}
+	// Loader.Load on valid and damaged wrappings
+	for i := 0; i < n; i++ {
+		raw := h.rng.Bytes(h.rng.Intn(12))
+		if h.rng.Chance(1, 10) {
+			raw = h.rng.Bytes(h.rng.Range(250, 260))
+		}
+		sec, _ := wrapWith("z", raw)
+		sec = append([]byte(nil), sec...)
+		ttag, ter := uint8(0xFF), false
+		kind := h.rng.Intn(10)
+		switch kind {
+		case 0: // as written, possibly followed by unrelated bytes (CLength granularity)
+			sec = append(sec, h.rng.Bytes(h.rng.Intn(6))...)
+		case 1: // one bit flipped: length, payload or checksum
+			sec[h.rng.Intn(len(sec))] ^= byte(1 << uint(h.rng.Intn(8)))
+		case 2: // truncated
+			sec = sec[:len(sec)-h.rng.Range(1, len(sec))]
+		case 3: // reserved high bits of the length
+			sec[3] |= []byte{0x40, 0x80, 0xC0}[h.rng.Intn(3)]
+		case 4: // length field off by a little
+			sec[0] += byte(h.rng.Range(1, 9))
+		case 5:
+			ttag = []uint8{0x00, 0x01, 0xFE, 0xC0}[h.rng.Intn(4)]
+		case 6:
+			ter = true
+		case 7: // shorter than the 8 bytes of an empty wrapping, or empty
+			sec = h.rng.Bytes(h.rng.Intn(8))
+		case 8: // a shorter dictionary with a matching checksum inside a longer range
+			if len(raw) > 0 {
+				inner, _ := wrapWith("z", raw[:len(raw)-1])
+				sec = append(append([]byte(nil), inner...), h.rng.Bytes(h.rng.Intn(4))...)
+			}
+		case 9: // random bytes
+			sec = h.rng.Bytes(h.rng.Range(8, 20))
+			sec[1], sec[2], sec[3] = 0, 0, 0
+		}
+		line := fmt.Sprintf("dictload %d %d %s", ttag, b2i(ter), hlib.Hex(sec))
+		got, err := h.loadSec(sec, ter, ttag)
+		if err != nil {
+			r.Op(line, "err "+dictErrWord(err))
+		} else {
+			r.Op(line, "ok "+hlib.Hex(got))
+		}
+		r.Count(fmt.Sprintf("dictload:kind=%d:%v", kind, err == nil))
+	}
+	// Saver.Compress: which resource wins, against which (refined) bytes, and that the winner's
+	// bytes survive the later compress calls
+	for i := 0; i < 4*n; i++ {
+		k := h.rng.Intn(7)
+		base := []int{0, 100, 255, 256, 257, 300, 640, 1000, 5000}[h.rng.Intn(9)]
+		threshold := (base / 64) * 63
+		var res [][]byte
+		best := base
+		for j := h.rng.Intn(5); j > 0; j-- {
+			l := []int{threshold - 1, threshold, threshold + 1, base - 1, base, best - 1, best, best + 1, 3, h.rng.Intn(base + 2)}[h.rng.Intn(10)]
+			if l < 0 {
+				l = 0
+			}
+			if l > 0xFFFE {
+				l = 0xFFFE
+			}
+			if h.rng.Chance(1, 40) {
+				l = 0xFFFF // the codec's compress fails
+			}
+			if l < threshold && l < best {
+				best = l
+			}
+			tail := []byte{byte(l), byte(l >> 8)}
+			for len(tail) < k {
+				tail = append(tail, byte(h.rng.Range(1, 255)))
+			}
+			if k >= 2 {
+				tail[k-1] = byte(0x10 + j) // the marker: distinct per resource
+			}
+			// bytes before the part that refine keeps: a compressor given the raw resource sees them
+			raw := append(h.rng.Bytes(h.rng.Intn(4)), tail...)
+			if h.rng.Chance(1, 12) {
+				raw = raw[:h.rng.Intn(len(raw)+1)]
+			}
+			res = append(res, raw)
+		}
+		var parts []string
+		for _, x := range res {
+			parts = append(parts, hlib.Hex(x))
+		}
+		rs := "none"
+		if len(parts) > 0 {
+			rs = strings.Join(parts, ",")
+		}
+		line := fmt.Sprintf("dictsel %d %d %s", k, base, rs)
+		var buf []byte
+		refine := func(b []byte) []byte {
+			if len(b) > k {
+				return b[len(b)-k:]
+			}
+			return b
+		}
+		_, out, sec, ter, err := raczlib.VerifSaverCompress(raczlib.VerifNewSaver(), nil, nil, res, fakeCompress(base, &buf), refine)
+		if err != nil {
+			r.Op(line, "err "+dictErrWord(err))
+			r.Count("dictsel:error")
+			continue
+		}
+		first := []byte(nil)
+		if len(out) > 0 {
+			first = out[:1]
+		}
+		r.Op(line, fmt.Sprintf("ok %d %d %s", sec, len(out), hlib.Hex(first)))
+		for _, b := range out {
+			if b != out[0] {
+				r.Fail("dict:winner-clobbered", "racdict.Saver.Compress returns bytes that a later compress call overwrote", line)
+				break
+			}
+		}
+		if ter != rac.NoResourceUsed {
+			r.Fail("dict:tertiary", "racdict.Saver.Compress names a tertiary resource", line)
+		}
+		if sec >= 0 {
+			r.Count("dictsel:a-resource-wins")
+			if sec < len(res)-1 {
+				r.Nontrivial(line) // a winner that later candidates could have clobbered
+			}
+		} else {
+			r.Count("dictsel:baseline-wins")
+		}
 	}
 }
